@@ -48,7 +48,7 @@ func (p *rawPlugin) Configure(ctx context.Context, req *api.ConfigureRequest) (*
 	p.configure++
 	p.mu.Unlock()
 	switch p.behave {
-	case "no-configure-answer":
+	case "no-configure-answer", "register-repeatedly":
 		<-p.hang
 		return nil, errors.New("too late")
 	case "close-after-configure":
@@ -151,6 +151,16 @@ func (p *rawPlugin) connect(sock string) error {
 		p.mu.Unlock()
 		if p.behave == "close-after-register" {
 			p.close()
+		}
+		if p.behave == "register-repeatedly" {
+			// a plugin that repeats its registration on the same connection (and never answers Configure)
+			for k := 0; k < 3; k++ {
+				go func() {
+					ctx, cancel := context.WithTimeout(context.Background(), 5*time.Second)
+					defer cancel()
+					rtc.RegisterPlugin(ctx, &api.RegisterPluginRequest{PluginName: p.name, PluginIdx: p.idx})
+				}()
+			}
 		}
 	}()
 	return nil
@@ -412,6 +422,12 @@ func runStallVector(prop string, vec []string, to time.Duration) (out [][2]strin
 	defer rt.Close()
 	var bad []*rawPlugin
 	for i, k := range vec {
+		if k == "idle" {
+			// nothing connects for longer than the registration timeout
+			time.Sleep(to + to/2)
+			bad = append(bad, nil)
+			continue
+		}
 		p := &rawPlugin{name: fmt.Sprintf("bad%d", i), idx: fmt.Sprintf("%02d", i+1), behave: k, delay: 3 * to}
 		switch k {
 		case "bad-mask":
@@ -440,6 +456,9 @@ func runStallVector(prop string, vec []string, to time.Duration) (out [][2]strin
 		}
 	}
 	for i, p := range bad {
+		if p == nil {
+			continue
+		}
 		_, s, e := p.counts()
 		// a plugin that registers correctly and then drops its connection is a well-formed
 		// registration (it may or may not be synchronized before the drop is noticed)
@@ -456,13 +475,18 @@ func runStallVector(prop string, vec []string, to time.Duration) (out [][2]strin
 
 func engineStalls(f *rep.Flags, res *rep.Result) {
 	const to = 200 * time.Millisecond
-	kinds := []string{"never-register", "late-register", "no-configure-answer", "bad-mask", "close-after-register", "close-after-configure", "bad-index", "empty-name"}
+	kinds := []string{"never-register", "late-register", "no-configure-answer", "bad-mask", "close-after-register", "close-after-configure", "bad-index", "empty-name", "register-repeatedly"}
 	var vectors [][]string
-	vectors = append(vectors, nil)
+	vectors = append(vectors, nil, []string{"idle"})
 	for _, a := range kinds {
 		vectors = append(vectors, []string{a})
+		// an idle period longer than the registration timeout between the bad plugin and the next one
+		vectors = append(vectors, []string{a, "idle"})
 		for _, b := range kinds {
 			vectors = append(vectors, []string{a, b})
+			if f.Thorough() {
+				vectors = append(vectors, []string{a, "idle", b}, []string{a, b, "idle"})
+			}
 		}
 	}
 	// the timeouts are process-global: one vector at a time per worker process (parallelism comes from shards)
